@@ -18,6 +18,7 @@ INTERIOR = ("Mutex<", "RwLock<", "Cell<", "RefCell<", "Atomic", "OnceLock<", "On
 
 
 def run(ctx):
+    k6b_cipher_cache_key(ctx)
     k8_reply_path_not_shared(ctx)
     k6_shared_table_keys(ctx)
     k7_process_wide_slots(ctx)
@@ -329,3 +330,20 @@ def k8_reply_path_not_shared(ctx):
             parts = o.key.split("|")
             ctx.ob("K8", parts[1], parts[2], o.where, o.ok, o.detail)
     ctx.floor("K8", "association reply-path obligations (U3)", 2, n)
+
+
+def k6b_cipher_cache_key(ctx):
+    """K6 (cipher cache): the process-wide datagram cipher cache is shared by every flow; its key must name everything the cached value depends
+    on (cipher kind, key identity, session id) — C12 N4 re-evaluated: with a component missing, the first flow to use a session id decides
+    the cipher for every other flow that carries the same id."""
+    from ..engine import Ctx
+    from . import c12
+    sub = Ctx(ctx.prog, "C12", ctx.tier)
+    c12.run(sub)
+    n = 0
+    for o in sub.obs:
+        if o.rule == "N4":
+            n += 1
+            parts = o.key.split("|")
+            ctx.ob("K6", parts[1], "cipher-cache:" + parts[2], o.where, o.ok, o.detail)
+    ctx.floor("K6", "cipher-cache key obligations (N4)", 1, n)
